@@ -17,6 +17,9 @@ Profile rules (deliberate readings, each named):
 * R-QP-LIBERAL    quoted-printable: a soft line break may end in bare LF; hard line breaks are preserved as
                   found (CRLF stays CRLF, LF stays LF); "=" not followed by two hex digits is kept literally
                   (RFC 2045 6.7 note (2): robust decoders leave such sequences alone).
+* R-QP-KEEP-WS    white space at the end of an encoded quoted-printable line is kept (RFC 2045 6.7 rule (3) deletes
+                  it because a transport agent may have added it; there is no such agent between writer and reader
+                  here).  qp_decode(..., strip_trailing_ws=True) gives the strict reading.
 * R-HDR-UTF8      header bytes are interpreted as UTF-8 (RFC 7578 section 5.1), undecodable bytes are carried
                   as surrogates.
 
@@ -263,8 +266,10 @@ def b64_encode(data: bytes, wrap: int = 76, eol: bytes = b"\r\n") -> bytes:
 _HEX = b"0123456789ABCDEFabcdef"
 
 
-def qp_decode(data: bytes) -> bytes:
-    """RFC 2045 6.7 (with R-QP-LIBERAL)."""
+def qp_decode(data: bytes, strip_trailing_ws: bool = False) -> bytes:
+    """RFC 2045 6.7 (with R-QP-LIBERAL).  strip_trailing_ws=True applies rule (3) (white space at the end of an
+    encoded line was added by a transport agent and is deleted); the default keeps it (R-QP-KEEP-WS: in this
+    harness the wire is delivered verbatim, no agent can have added anything)."""
     out = bytearray()
     i, n = 0, len(data)
     while i < n:
@@ -284,10 +289,10 @@ def qp_decode(data: bytes) -> bytes:
         soft = stripped.endswith(b"=") and brk != b""
         if soft:
             body = stripped[:-1]
-        elif brk:
+        elif brk and strip_trailing_ws:
             body = stripped
         else:
-            body = line  # last line without line break: nothing was appended by transport
+            body = line
         k, m = 0, len(body)
         while k < m:
             c = body[k]
@@ -374,6 +379,7 @@ class Part:
     start: int = 0  # offset of the first octet of the part (its header block) in the enclosing body
     body_start: int = 0
     children: "Multipart | None" = None  # when Content-Type is multipart/*
+    ref_content: "bytes | None" = None  # cache for the monitor
 
     def header(self, name: str, default=None):
         return get_header(self.headers, name, default)
